@@ -28,6 +28,10 @@ func vh_C42_itembuf_putget() {
 	buf := &itemBuf{B: make([]queue.Item, n, c)}
 	for k := range buf.B {
 		buf.B[k] = queue.Item{Data: []byte{1}, Channel: "x"}
+		if k < 2 && vChoice("item_without_data", 2) == 1 {
+			// an item need not carry data to be dirty
+			buf.B[k] = queue.Item{Channel: "x", Key: "k"}
+		}
 	}
 	putItemBuf(buf)
 	l := vRange("length", -2, 40)
@@ -40,7 +44,7 @@ func vh_C42_itembuf_putget() {
 	vAssert(len(got.B) == want, "length-as-requested")
 	vAssert(cap(got.B) >= want, "capacity>=length")
 	for k := range got.B {
-		vAssert(got.B[k].Data == nil && got.B[k].Channel == "", "no-stale-item")
+		vAssert(got.B[k].Data == nil && got.B[k].Channel == "" && got.B[k].Key == "", "no-stale-item")
 	}
 	vCover(got == buf, "reused-pooled-buffer")
 }
